@@ -25,6 +25,12 @@ pub mod c14_scan;
 #[cfg(any(kani, test))]
 mod c14_table;
 #[cfg(any(kani, test))]
+mod c05_nth;
+#[cfg(any(kani, test))]
+mod c05_range;
+#[cfg(any(kani, test))]
+mod c05_ops;
+#[cfg(any(kani, test))]
 pub mod c12_vars;
 #[cfg(any(kani, test))]
 mod c01_combined;
